@@ -54,6 +54,10 @@
                                          list of copies made in the call, Spec.interpret binds `data` to a copy of
                                          self.data or to patch.apply of it and returns only that; none of them (nor the
                                          helpers they reach through self) writes through an attribute or subscript.
+         C02_directory_order_not_observed  no module of the simulation path enumerates a directory (rglob / glob / iterdir /
+                                         listdir / scandir / walk) without sorting the result at once: the order in which a file
+                                         system lists a directory cannot reach component order, event order or log hashes (the one
+                                         place that did -- the specification repository -- was repaired, dc5ff5b).
    PARTIAL, explored by H-iso and not proved: thread interleavings of CPython over the process-wide objects; hash-seed
    dependence of set/dict iteration; Lark / PyYAML / pydantic internals; the copies of (3) are shallow
    (model_copy, dict.copy), so that interpreting never alters the stored spec also rests on every
@@ -215,6 +219,10 @@ Theorem C02_rejected_base_skips_followers :
         Some ((0, 1) :: (1, 1) :: nil, 0 :: 1 :: nil) :: Some ((0, 7) :: (2, 7) :: nil, 0 :: 2 :: nil) :: nil.
 Proof. exact @RouterExamples.rejected_base_skips_followers. Qed.
 
+Theorem C02_directory_order_not_observed :
+  iso_unsorted_enumerations = reviewed_unsorted_enumerations.
+Proof. exact @directory_order_not_observed. Qed.
+
 Print Assumptions C02_route_cache.
 Print Assumptions C02_route_cache_built_router.
 Print Assumptions C02_route_cache_any_client.
@@ -227,3 +235,4 @@ Print Assumptions C02_no_entropy_imports.
 Print Assumptions C02_process_wide_state_reviewed.
 Print Assumptions C02_spec_repository_hands_out_copies.
 Print Assumptions C02_rejected_base_skips_followers.
+Print Assumptions C02_directory_order_not_observed.
